@@ -69,6 +69,33 @@ SolveVerdict(p, ks, r, s) ==
     ELSE "ok"
 
 -----------------------------------------------------------------------------
+(* The same requirements decided *by witness* for programs whose solution set is too   *)
+(* large to enumerate: the driver supplies assignments ws (1/0 for booleans) that it   *)
+(* claims are solutions; the claim itself is checked first (linear).  A FALSE answer   *)
+(* is then wrong, a reported fact must agree with every supplied solution, and a TRUE  *)
+(* answer of find_answer is checked through its own sol exactly as above.              *)
+WAsg(d, w)    == [k \in DOMAIN d |-> IF d[k].kind = "bool" THEN w[k] = 1 ELSE w[k]]
+WitnessesOK(p, ws) == \A j \in DOMAIN ws : Len(ws[j]) = Len(p.vars) /\ IsModel(p, WAsg(p.vars, ws[j]))
+
+FindVerdictW(p, r, s, ws) ==
+    IF ~WitnessesOK(p, ws) THEN "machinery:supplied-witness-is-not-a-solution"
+    ELSE IF ~r THEN "find:false-but-satisfiable"
+    ELSE IF ~SolTyped(p.vars, s) THEN "find:sol-has-wrong-type"
+    ELSE IF ~InDomain(p.vars, s) THEN "find:sol-outside-declared-bounds"
+    ELSE IF \E i \in DOMAIN p.cons : ~Eval(p.cons[i], SolAsg(p.vars, s)) THEN "find:sol-is-not-a-model"
+    ELSE "ok"
+
+SolveVerdictW(p, ks, r, s, ws) ==
+    IF ~WitnessesOK(p, ws) THEN "machinery:supplied-witness-is-not-a-solution"
+    ELSE IF ~r THEN "solve:false-but-satisfiable"
+    ELSE IF Len(s) # Len(p.vars) THEN "solve:sol-length"
+    ELSE IF \E k \in ks : s[k].ty # "none" /\
+              (s[k].ty # p.vars[k].kind \/
+               \E j \in DOMAIN ws : SlotVal(p.vars[k].kind, s[k]) # WAsg(p.vars, ws[j])[k])
+         THEN "solve:reports-a-fact-that-is-not-common-to-all-solutions"
+    ELSE "ok"
+
+-----------------------------------------------------------------------------
 Init == /\ decl = <<>> /\ cons = <<>> /\ keys = {} /\ sol = <<>>
         /\ last = [op |-> "none", ret |-> FALSE, keys |-> {}] /\ hist = <<>>
 
